@@ -32,6 +32,10 @@ ADVERSARIAL = {
 }
 
 
+class ProgBoom(Exception):
+    """Raised by the harness's progress callback."""
+
+
 class SeqBoom(Exception):
     """Raised on purpose by a harness sequence."""
 
@@ -72,6 +76,12 @@ def _install(world, plan, dev):
     else:
         saved = {"serial_asyncio": sermod.serial_asyncio}
         sermod.serial_asyncio = FakeSerialAsyncio(world, dev)
+    if plan["knobs"].get("wait_for") == "py38-311":
+        from .legacy_asyncio import LegacyAsyncio
+        mod = hidmod if drv in ("tridonic", "hasseb") else sermod
+        saved["asyncio"] = mod.asyncio
+        mod.asyncio = LegacyAsyncio()
+        world.probe("wait_for-py38-311")
     return saved
 
 
@@ -116,8 +126,10 @@ def make_world(plan, units=None):
         bus = ScriptedBus(world, unit_outcomes(plan))
     if drv == "tridonic":
         dev = TridonicGW(world, bus, line, lat, quirk=knobs.get("quirk", False))
+        dev.stalls = [list(x) for x in knobs.get("stalls", [])]
     elif drv == "hasseb":
         dev = HassebGW(world, bus, line, lat, idle_spam=knobs.get("idle_spam", False))
+        dev.stalls = [list(x) for x in knobs.get("stalls", [])]
 
         def expects(bits, value):
             return cmds.mk_cmd([bits, value, 0]).response is not None
@@ -193,6 +205,8 @@ async def _do_op(world, driver, rec, hooks):
 
         def prog(p):
             rec.progress += 1
+            if op.get("progress_raise_at") is not None and rec.progress - 1 == op["progress_raise_at"]:
+                raise ProgBoom()
         return await driver.run_sequence(gen, progress=prog)
     if k in hooks:
         return await hooks[k](world, driver, rec)
